@@ -111,7 +111,7 @@ def run(ctx: Ctx) -> None:
     warnings.filterwarnings("ignore")
     logging.disable(logging.CRITICAL)
     quick = ctx.quick
-    consts = {"MaxLen": 3 if quick else 4}
+    consts = {"MaxLen": int(os.environ.get("C19_MAXLEN", 3 if quick else 4))}
     invs = ["Agree", "OnlyOfferedAndProducible", "NoOverlapNoCoding", "VgiPrecedence", "IdentityFirst",
             "UnknownAndDuplicatesIrrelevant", "HeaderWellFormed"]
     cases = U.enumerate_split(ctx, "httpgate", "Negotiate", constants=consts, invariants=invs)
@@ -154,17 +154,18 @@ def run(ctx: Ctx) -> None:
         nonlocal obs, nviol
         if not obs:
             return
-        judged = [{"case": o["case"], "obs": o["obs"]} for o in obs]
+        judged = [{"case": o["case"], "obs": {"runs": o["runs"]}} for o in obs]
         bad = U.judge_split(ctx, "httpgate", "Negotiate", judged, constants=consts)
         for idx, clauses in bad:
             o = obs[idx]
-            for cl in clauses:
+            for full in clauses:
+                cl, _, path = full.partition("/")
+                run = next(r for r in o["runs"] if r["path"] == path)
                 nviol += 1
-                ctx.violation(cl, {"path": o["obs"]["path"], "server_set": "+".join(o["case"]["s"]) or "none",
+                ctx.violation(cl, {"path": path, "server_set": "+".join(o["case"]["s"]) or "none",
                                    "expected_coding": o["_e"]["coding"], "expected_hdr": "|".join(o["_e"]["hdr"]),
-                                   "observed_coding": o["obs"]["coding"],
-                                   "observed_hdr": o["obs"]["hdr"]},
-                              {"case": o["case"], "headers_sent": o["_h"], "observed": o["obs"]})
+                                   "observed_coding": run["coding"], "observed_hdr": run["hdr"]},
+                              {"case": o["case"], "headers_sent": o["_h"], "observed": run})
         obs = []
 
     stride = 1 if quick else 3
@@ -179,20 +180,19 @@ def run(ctx: Ctx) -> None:
         for a_txt, v_txt in renders:
             h = {**base, "Accept-Encoding": a_txt, "X-VGI-Accept-Encoding": v_txt}
             st, hd, body = U.wsgi_call(app, "POST", "/echo", ubody, h)
-            o = observe("unary", st, hd, body, ref_u)
-            obs.append({"case": case, "obs": o, "_h": [a_txt, v_txt], "_e": cj["exp"]})
+            runs = [observe("unary", st, hd, body, ref_u)]
             ctx.case([a_txt, v_txt, case["s"], "unary"])
             if short or ci % stride == 0:
                 st, hd, body = U.wsgi_call(app, "POST", "/prod/exchange", tick, h)
-                o = observe("producer", st, hd, body, ref_p)
-                obs.append({"case": case, "obs": o, "_h": [a_txt, v_txt], "_e": cj["exp"]})
+                runs.append(observe("producer", st, hd, body, ref_p))
                 ctx.case([a_txt, v_txt, case["s"], "producer"])
-        if len(obs) >= 150000:
+            obs.append({"case": case, "runs": runs, "_h": [a_txt, v_txt], "_e": cj["exp"]})
+        if len(obs) >= 120000:
             flush()
     for o in obs[:: max(1, len(obs) // 5)][:5]:
         ctx.sample({"abstract": o["case"], "headers_sent": {"Accept-Encoding": o["_h"][0],
                                                             "X-VGI-Accept-Encoding": o["_h"][1]},
-                    "observed": o["obs"]})
+                    "observed": o["runs"]})
     flush()
     ctx.extra["abstract_cases"] = len(cases)
 
